@@ -338,6 +338,7 @@ inductive Res where
   | ok
   | err (e : String)
   | val (v : Option Val)
+  | got (v : Val) (k : Key)      -- an entry: its value and the Key field the caller receives
   | lst (l : List Key)
   | kvs (l : Store)
   | bad
@@ -364,6 +365,21 @@ def xlate (write : Bool) : List Layer → Key → Option (Except String Key)
     else xlate write r k
   | .pview p :: r, k => if containsDotDot k then some (.error "relative") else xlate write r (p ++ k)
   | .lview p :: r, k => if isRelativePath k then some (.error "relative") else xlate write r (p ++ k)
+
+/-- `strings.TrimPrefix(full, prefix)` -/
+def trimPrefix (p k : Key) : Key := if hasPrefix p k then k.drop p.length else k
+
+/-- the `Key` of the entry a `Get` hands back up through the layers (top first), given the key `bk` of the entry
+the bottom backend returned: every view builds a NEW entry whose key is the received key minus the view prefix
+(`physical.View.Get`, `logical.StorageView.Get`); cache and encoding layers pass the entry through. Since the
+repair of F42 the view no longer rewrites the received entry, so what the cache keeps is never altered and this
+function of the layers alone is the whole story. -/
+def keyBack : List Layer → Key → Key
+  | [], bk => bk
+  | .cache :: r, bk => keyBack r bk
+  | .enc :: r, bk => keyBack r bk
+  | .pview p :: r, bk => trimPrefix p (keyBack r bk)
+  | .lview p :: r, bk => trimPrefix p (keyBack r bk)
 
 def maxKeySize : Nat := 32768
 
@@ -470,6 +486,13 @@ def doDel (st : St) (k : Key) : St × Res :=
         | some (.error e) => (st, .err e)
         | some (.ok _) => ({ st with txn := some (.raft rw snap (updSet u bk none)) }, .ok)
 
+/-- result of a `Get` that reached the bottom with key `bk`: absent, or the value with the key the caller sees
+(every backend returns the entry under the key it was asked for) -/
+def entryRes (st : St) (bk : Key) (r : Option Val) : Res :=
+  match r with
+  | none => .val none
+  | some v => .got v (keyBack st.layers.reverse bk)
+
 def doGet (st : St) (k : Key) : Res :=
   match xlate false st.layers.reverse k with
   | none => .bad
@@ -480,14 +503,14 @@ def doGet (st : St) (k : Key) : Res :=
       match bottomKeyCheck st.kind bk with
       | none => .bad
       | some (.error e) => .err e
-      | some (.ok _) => if st.kind = .file ∧ bk = [] then .bad else .val (kvGet st.store bk)
-    | some (.inmem _ s) => .val (kvGet s bk)
+      | some (.ok _) => if st.kind = .file ∧ bk = [] then .bad else entryRes st bk (kvGet st.store bk)
+    | some (.inmem _ s) => entryRes st bk (kvGet s bk)
     | some (.raft rw snap u) =>
       if rw then
         match updGet u bk with
-        | some r => .val r
-        | none => .val (kvGet snap bk)
-      else .val (kvGet snap bk)
+        | some r => entryRes st bk r
+        | none => entryRes st bk (kvGet snap bk)
+      else entryRes st bk (kvGet snap bk)
 
 def doList (st : St) (p after : Key) (limit : Int) : Res :=
   match topList st p after limit with
